@@ -134,8 +134,8 @@ func pickEngine(r *rand.Rand) string {
 func genPlacement(r *rand.Rand, maxKeys int) ruleSet {
 	b := &builder{r: r, maxKeys: maxKeys}
 	p := 1 + r.Intn(5)
-	k := 2 + r.Intn(4)    // rules of phase p
-	pos := r.Intn(k)      // position of the jumper
+	k := 2 + r.Intn(4) // rules of phase p
+	pos := r.Intn(k)   // position of the jumper
 	if x := r.Intn(3); x == 0 {
 		pos = 0
 	} else if x == 1 {
